@@ -77,7 +77,7 @@ fn make_event(m: &sim::Model, inv: &crate::maps::Inv, rng: &mut Rng, kind: u64, 
     if idx % 2 == 0 {
         banks.extend(event::pad_banks(inv, &pads, 700));
     } else {
-        banks.extend(event::pad_banks_varied(inv, &pads, 700, rng));
+        banks.extend(event::pad_banks_varied(inv, &pads, 700, rng, Some((idx / 2 + 7) as usize)));
     }
     banks.push(event::trg_bank(1000 + idx as u32));
     let what = match kind {
@@ -289,7 +289,7 @@ fn make_event(m: &sim::Model, inv: &crate::maps::Inv, rng: &mut Rng, kind: u64, 
 fn run(ctx: &mut Ctx) {
     let m = sim::Model::load(&repo_root());
     let inv = crate::maps::inverse(u32::MAX);
-    let n_events = ctx.tier.pick(30, 120);
+    let n_events = ctx.tier.pick(32, 120);
     let shard = ctx.shard as u64;
     // NOTE: every shard processes *all* events (the comparison across processes is the point);
     // only the permutations differ between shards.
@@ -303,7 +303,9 @@ fn run(ctx: &mut Ctx) {
         }
         ctx.cur_case = i;
         let mut rng = ctx.rng_for("events", i);
-        let (banks, what) = make_event(&m, &inv, &mut rng, i % 19, i);
+        // the 19 kinds once each, then valid events only (odd ones with per-packet metadata, the spread of the PWB trigger
+        // timestamps cycling through 8, 0, 4, 1, 9, 1000, 5, unrelated)
+        let (banks, what) = make_event(&m, &inv, &mut rng, if i < 19 { i } else { 0 }, i);
         let groups = {
             let mut g: Vec<&str> = banks.iter().filter(|b| b.0.starts_with("PC")).map(|b| &b.0[..]).collect();
             g.sort();
